@@ -19,6 +19,16 @@ if __name__ == '__main__':
     reg = build_registry()
     pats = sys.argv[1:]
     timeout = 10
+    from pyvc.state import Obligation
+    for (lname, lprops, lfn) in reg.lemmas:
+        if pats and not any(p in 'lemma:' + lname for p in pats):
+            continue
+        obs = [Obligation('lemma:%s/%s' % (lname, sub), hyps, goal, 'lemma', lname) for (sub, hyps, goal) in lfn(reg)]
+        res = solve_all(obs, timeout_s=timeout)
+        print('lemma:%s: %d obligations, %d discharged' % (lname, len(res), sum(v[0] == 'unsat' for v in res.values())))
+        for k, v in sorted(res.items()):
+            if v[0] != 'unsat':
+                print('   ', v[0].upper(), k, v[1], v[2], v[3][:200])
     for key, c in reg.contracts.items():
         if c.trusted or (pats and not any(p in key for p in pats)):
             continue
